@@ -71,12 +71,12 @@ SFL_OPS = {14: 'insert_multi', 1: 'allocate', 2: 'deallocate', 5: 'insert', 6: '
            11: 'bad_outside', 12: 'bad_stride', 13: 'bad_double'}
 SFL_PROPS = {14: ['C01', 'C04', 'C18'], 1: ['C01', 'C02', 'C16', 'C17'], 2: ['C01', 'C04', 'C16', 'C17'], 5: ['C01', 'C02'], 6: ['C01'], 7: ['C12'], 8: ['C12'], 9: ['C12'],
              11: ['C16'], 12: ['C16'], 13: ['C16']}
-def sfl_jobs(op, config, tier, nss, timeout=400, lays=((0, 0), (1, 1), (2, 0))):
+def sfl_jobs(op, config, tier, nss, timeout=400, lays=((0, 0), (1, 1), (2, 0)), mem=6):
     for ns in nss:
         for lay, gap in lays:
             add('sfl-%s-%s-ns%d-lay%d%d' % (SFL_OPS[op], config, ns, lay, gap), SFL_PROPS[op], 'freelist', 'sfl_step.c', config=config,
                 defines=['OP=%d' % op, 'NS_MIN=%d' % ns, 'NS_MAX=%d' % ns, 'LAY=%d' % lay, 'GAP=%d' % gap,
-                         'HEAP_SIZE=%d' % (2 * 56 + 2 * ((32 + 3 * ns + 7) // 8 * 8) + 16 + 8)], unwind=8, timeout=timeout, tier=tier,
+                         'HEAP_SIZE=%d' % (2 * 56 + 2 * ((32 + 3 * ns + 7) // 8 * 8) + 16 + 8)], unwind=8, timeout=timeout, tier=tier, mem_gb=mem,
                 desc='small_free_memory_list::%s one inductive step from an arbitrary valid state' % SFL_OPS[op],
                 bounds='<=2 chunks of <=3 nodes, arbitrary free chains, cache pointers anywhere on the ring, node size %d, layout %d (objects below/between/above the chunks), chunk gap %d' % (ns, lay, gap))
 for op in (1, 2, 6, 7, 8, 9):
@@ -86,11 +86,11 @@ for op in (1, 2, 6, 7, 8, 9):
 for op in (1, 2):
     sfl_jobs(op, 'baseline', 'quick', (3,), lays=((0, 0), (2, 0)))
     sfl_jobs(op, 'baseline', 'quick', (1,), lays=((1, 1),))
-sfl_jobs(5, 'release', 'quick', (3,), timeout=600, lays=((1, 0),))
-sfl_jobs(5, 'release', 'thorough', (1,), timeout=1800)
+sfl_jobs(5, 'release', 'quick', (3,), timeout=900, lays=((1, 0),), mem=14)     # peak RSS 5.5 GB: a 6 GB address-space cap made this query flaky
+sfl_jobs(5, 'release', 'thorough', (1,), timeout=1800, mem=14)
 for op in (11, 12):
     sfl_jobs(op, 'baseline', 'quick', (3,))
-    sfl_jobs(op, 'baseline', 'thorough', (1,), timeout=1200)
+    sfl_jobs(op, 'baseline', 'thorough', (1,) if op == 11 else (2,), timeout=1200)     # node size 1 has no off-stride pointer
 sfl_jobs(13, 'check', 'quick', (3,), lays=((1, 0),))
 sfl_jobs(13, 'debug8', 'thorough', (1, 3), timeout=1200, lays=((1, 0),))
 
